@@ -34,7 +34,7 @@ fn discriminator(m: &Value, gptr: &str, e: &MEdit) -> String {
     let ptr = match e {
         MEdit::KeyDeleted { ptr } | MEdit::ItemDeleted { ptr } | MEdit::ArrayEmptied { ptr } | MEdit::ArrayDuplicated { ptr }
         | MEdit::ArrayTruncated { ptr } | MEdit::IdRedirected { ptr, .. } | MEdit::NumberZeroed { ptr } | MEdit::NumberNegated { ptr }
-        | MEdit::NumberNudged { ptr, .. } => ptr.clone(),
+        | MEdit::NumberNudged { ptr, .. } | MEdit::ScaleNumber { ptr, .. } => ptr.clone(),
         _ => return String::new(),
     };
     let parts: Vec<&str> = ptr.split('/').collect();
